@@ -132,7 +132,7 @@ def run(tier, seed):
     rng = random.Random(seed)
     quick = tier == "quick"
     B, S = (2, 2) if quick else (3, 3)
-    nrand, depth, budget = (400, 3, 9) if quick else (3000, 4, 14)
+    nrand, depth, budget = (400, 3, 9) if quick else (2000, 4, 14)
     extras = families(B, S)
     nfam = len(extras)
     extras += random_programs(rng, nrand, depth, budget)
@@ -159,6 +159,7 @@ def run(tier, seed):
     groups = collections.OrderedDict()
     for line in g.json_lines:
         groups.setdefault((json.dumps(line["prog"], sort_keys=True), line["flav"]), []).append(line)
+    groups = collections.OrderedDict(sorted(groups.items()))          # TLC prints in worker order: fix the order for the seed
     if len(groups) < 300:
         raise MachineryError(f"generator produced only {len(groups)} programs")
 
@@ -179,7 +180,7 @@ def run(tier, seed):
 
     # every (other) program also as a source file with native control flow, for autograph
     items = [(idx, vs) for idx, (_, vs) in enumerate(groups.items()) if not vs[0]["tape"]["err"]]
-    agset = {idx for n, (idx, vs) in enumerate(items) if not quick or n % 3 == 0}
+    agset = {idx for n, (idx, vs) in enumerate(items) if n % (3 if quick else 5) == 0}
     srcmod = qcap.write_module(lib.workdir("C42", "src") / "c42_programs.py",
                                [(f"p{idx}", vs[0]["prog"], vs[0]["flav"], idx % 2 == 1) for idx, vs in items if idx in agset])
     for idx, ((pj, flav), vs) in enumerate(groups.items()):
@@ -228,8 +229,8 @@ def run(tier, seed):
                 else:
                     t2, r2, _ = capture_mode(prog, flav, X0, Y0, dyn, how, sub=sub, want_rets=bool(erets))
             except Exception as e:                   # pylint: disable=broad-except
-                inner = re.search(r"^\s+(\w+(?:Error|Exception)):", str(e), re.M)
-                report(f"capture:crash:{type(e).__name__}" + (f":{inner.group(1)}" if inner else ""),
+                inner = re.findall(r"^\s+(\w+(?:Error|Exception)):", str(e), re.M)      # the innermost wrapped exception
+                report(f"capture:crash:{type(e).__name__}" + (f":{inner[-1]}" if inner else ""),
                        f"capture ({how}, dynamic={dyn}, subroutines={sub}) raised {type(e).__name__}: {str(e)[:300]}",
                        dict(rep, dyn=dyn, how=how, sub=sub))
                 ok = False
@@ -331,7 +332,7 @@ def unitary_only(prog):
 def transform_part(tier, rng, good, report):
     from pennylane.transforms.decompose import DecomposeInterpreter, decompose_plxpr_to_plxpr
     quick = tier == "quick"
-    limit = 90 if quick else 800
+    limit = 90 if quick else 400
     maxw = 5 if quick else 6
     cases, meta = [], []
     cnt = collections.Counter()
@@ -339,7 +340,7 @@ def transform_part(tier, rng, good, report):
     rng.shuffle(cand)
     total_cost = 0
     for prog, flav, v in cand:
-        if len(cases) >= limit or total_cost > (500000 if quick else 25000000):
+        if len(cases) >= limit or total_cost > (500000 if quick else 8000000):
             break
         gs = GATE_SETS[len(cases) % len(GATE_SETS)]
         kw = {"gate_set": set(gs)}
@@ -497,12 +498,17 @@ def replay(path, tier, seed):
     t1, r1 = tape_mode(prog, flav, X0, Y0)
     d1 = qcap.describe_tape(t1)
     try:
-        t2, r2, _ = capture_mode(prog, flav, X0, Y0, rep.get("dyn", False), rep.get("how", "make_plxpr"), sub=rep.get("sub", False), want_rets=True)
+        if rep.get("how") == "autograph":
+            mod = qcap.write_module(lib.workdir("C42", "src") / "c42_replay_program.py", [("p0", prog, flav, bool(rep.get("dyn")))])
+            t2, r2 = autograph_mode(mod.p0, X0, Y0, want_rets=True)
+        else:
+            t2, r2, _ = capture_mode(prog, flav, X0, Y0, rep.get("dyn", False), rep.get("how", "make_plxpr"), sub=rep.get("sub", False), want_rets=True)
         df = qcap.first_diff(qcap.describe_tape(t2), d1)
         if df is None and r1 != r2:
             df = ("returned-values", f"{r2} vs {r1}")
     except Exception as e:                           # pylint: disable=broad-except
-        df = (f"crash:{type(e).__name__}", str(e)[:300])
+        inner = re.findall(r"^\s+(\w+(?:Error|Exception)):", str(e), re.M)
+        df = (f"crash:{type(e).__name__}" + (f":{inner[-1]}" if inner else ""), str(e)[:300])
     if df:
         viol.append(Violation(key=f"C42:capture:{df[0]}", detail="capture round trip vs tape mode: " + df[1], replay=rep))
     return CheckResult(coverage={"states": 0, "transitions": 0, "traces_validated_against_impl": 0, "evaluations": 2, "distinct_nontrivial": 0,
